@@ -102,11 +102,22 @@ func (in *interner) val(s string) int64 {
 	return v
 }
 
-func (in *interner) fval(f float64) int64 { return in.val(strconv.FormatUint(math.Float64bits(f), 16)) }
+func (in *interner) fval(f float64) int64 {
+	if value.IsStaleNaN(f) { // a staleness marker may be logged and stored under different sample types
+		return in.val("stale")
+	}
+	return in.val(strconv.FormatUint(math.Float64bits(f), 16))
+}
 func (in *interner) hval(h *histogram.Histogram) int64 {
+	if value.IsStaleNaN(h.Sum) { // a chunk keeps the bucket layout of a staleness marker, the WAL record does not
+		return in.val("stale")
+	}
 	return in.val(fmt.Sprintf("h%d%v%s", h.Schema, h.CustomValues, h.String()))
 }
 func (in *interner) fhval(h *histogram.FloatHistogram) int64 {
+	if value.IsStaleNaN(h.Sum) {
+		return in.val("stale")
+	}
 	return in.val(fmt.Sprintf("fh%d%v%s", h.Schema, h.CustomValues, h.String()))
 }
 func (in *interner) eval(f float64, l labels.Labels) int64 {
